@@ -24,7 +24,7 @@ import math
 
 from simprocesd.model.simulation import Environment, EventType
 
-from vlib.runner import Violation
+from vlib.runner import PROGRESS, Violation
 from vlib.weights import Weights, installed
 
 TERMINATE = int(EventType.TERMINATE)
@@ -185,6 +185,7 @@ class E1:
         snap = list(env._events)
         now_before = env.now
         self._orig_step()
+        PROGRESS[0] += 1
         self.c['dispatches'] += 1
         if env.now < now_before:
             self.bad('C01.clock', f'clock went backwards from {now_before} to {env.now}')
